@@ -336,7 +336,6 @@ func init() {
 		}
 		rangeLen := zbody(lenFn.Body.List)
 
-
 		// ---------------------------------------------------------------- scope.interpretOps: the guards of the mixed-precedence branch
 		// (follow-up 2) AspTables pins the whole body textually; here the if / else-if chain between the two leading fast paths and
 		// the final evaluation of the right operand is TRANSLATED into a list of guards, in source order, which Model/C16_Effects.v
